@@ -934,8 +934,16 @@ def oracle_C12_group(cases, results):
     return None
 
 # ---------------- C13 (const metamorphic) ----------------
+F24 = [("const K = 1 , 2\nscript S { setvar(K) }\n", "script S { setvar(1 , 2) }\n"),
+       ("const K = ( 1 )\nscript S { switch (var(K)) { case 1: a } }\n", "script S { switch (var(( 1 ))) { case 1: a } }\n")]
+
 def gen_C13(rnd, n, tier):
     out = []
+    # the recorded finding F24 stays in the stream: constant values that contain a comma / a parenthesis
+    for k, (a, b) in enumerate(F24):
+        cfg = base_cfg()
+        out.append(Case(compile_line(cfg, a), a, cfg, {"role": "const"}, group=("F24", k)))
+        out.append(Case(compile_line(cfg, b), b, cfg, {"role": "expanded"}, group=("F24", k)))
     for it in range(n):
         pool = ["K%d" % i for i in range(4)]
         if it % 4 == 1: pool = ["ÉTAGE", "K1", "ñ_k", "K3"]          # names that start with a non-ASCII letter
